@@ -4,6 +4,7 @@ import (
 	"strconv"
 	"strings"
 	"sync/atomic"
+	"syscall"
 	"testing"
 	"time"
 
@@ -181,6 +182,15 @@ func genC05(t *rapid.T) C05Case {
 
 var c05Patience = func() *atomic.Int64 { v := new(atomic.Int64); v.Store(90); return v }()
 
+// processCPU returns the CPU time (user + system) this process has used so far.
+func processCPU() time.Duration {
+	var ru syscall.Rusage
+	if syscall.Getrusage(syscall.RUSAGE_SELF, &ru) != nil {
+		return 0
+	}
+	return time.Duration(ru.Utime.Nano() + ru.Stime.Nano())
+}
+
 func checkC05(c C05Case, o *h.Obs) *h.Fail {
 	x := c.X.Build()
 	xv := c.X.Val()
@@ -217,15 +227,29 @@ func checkC05(c C05Case, o *h.Obs) *h.Fail {
 			defer func() { done <- recover() }()
 			z.Sqrt(x)
 		}()
-		select {
-		case r := <-done:
-			if r != nil {
-				panic(r)
+		// The budget is counted in wall-clock seconds AND in CPU seconds of this process: a machine that stalls (memory
+		// pressure froze every shard of a thorough run for minutes once, and seven of them reported "no-return" for
+		// Sqrt(0.16e634)) burns no CPU time, a loop that does not end burns one CPU second per second.
+		patience := time.Duration(c05Patience.Load()) * time.Second
+		start, cpu0 := time.Now(), processCPU()
+		tick := time.NewTicker(200 * time.Millisecond)
+		defer tick.Stop()
+	wait:
+		for {
+			select {
+			case r := <-done:
+				if r != nil {
+					panic(r)
+				}
+				break wait
+			case <-tick.C:
+				if time.Since(start) >= patience && processCPU()-cpu0 >= patience/2 {
+					// (the abandoned goroutine keeps a core busy: after the first one, the cases that follow - the
+					// shrinking attempts - wait 8 s only)
+					c05Patience.Store(8)
+					return h.Failf("no-return", "Sqrt(%v) at precision %d %v has not returned after %v (%v of CPU time used by the process meanwhile)", xv, wantPrec, model.Mode(c.M), time.Since(start).Round(time.Second), (processCPU() - cpu0).Round(time.Second))
+				}
 			}
-		case <-time.After(time.Duration(c05Patience.Swap(8)) * time.Second):
-			// (the abandoned goroutine keeps a core busy: after the first one, the cases that follow - the
-			// shrinking attempts - wait 8 s only)
-			return h.Failf("no-return", "Sqrt(%v) at precision %d %v has not returned after 90 s", xv, wantPrec, model.Mode(c.M))
 		}
 	} else {
 		z.Sqrt(x)
